@@ -31,6 +31,8 @@ def ty_text(t):
         return "%s[%s, %s]" % (k, ty_text(t[1]), ty_text(t[2]))
     if k == "var":
         return t[1]
+    if k == "fn":  # ('fn', result, parameter types...)
+        return "(%s) -> %s" % (", ".join(ty_text(x) for x in t[2:]), ty_text(t[1]))
     return k
 
 
@@ -114,6 +116,10 @@ def make_items():
         Item("gokr", [("T", False), ("U", False)], [("x", A)], ("Res", A, B), lambda c: "Ok_(x)"),
         Item("gerr", [("T", False), ("U", False)], [("e", B)], ("Res", A, B), lambda c: "Err_(e)"),
         Item("gres", [("T", True), ("U", True)], [("r", ("Res", A, B))], ("string",), lambda c: "match r { Ok_(x) => { let y: %s = x; \"ok:\" + %s }, Err_(e) => { let z: %s = e; \"err:\" + %s } }" % (c.ty(A), c.sh(A, "y"), c.ty(B), c.sh(B, "z"))),
+        # type parameters that occur only in the result type of a function-typed parameter / only in its parameters
+        Item("gcallr", [("T", True)], [("n", ("int32",)), ("f", ("fn", A, ("int32",)))], ("string",), lambda c: "let y: %s = f(n); let z: %s = f(n + 1); %s + %s" % (c.ty(A), c.ty(A), c.sh(A, "y"), c.sh(A, "z"))),
+        Item("grun2", [("T", False)], [("f", ("fn", A))], ("int32",), lambda c: "let _ = f(); let _ = f(); 2"),
+        Item("gapp", [("T", False), ("U", False)], [("f", ("fn", B, A)), ("x", A)], B, lambda c: "f(x)"),
         Item("Two.flip", [("T", False), ("U", False)], [("self", ("Two", A, B))], ("Two", B, A), lambda c: "Two { l: self.r, r: self.l }", method_of="Two"),
     ]
     return {i.name: i for i in items}
@@ -127,6 +133,7 @@ class Gen:
         self.order = []
         self.sh_needed = []
         self.used = set()
+        self.helpers = []
 
     # ---- concrete types and values -------------------------------------------------------
     def conc_type(self, d):
@@ -205,6 +212,12 @@ class Gen:
             bump = "vec_push(self, vec_get(self, 0))"
         return "impl Sh for %s {\n    fn sh(self: %s) -> string { %s }\n    fn bump(self: %s) -> %s { %s }\n}\n" % (tt, tt, body, tt, tt, bump)
 
+    def helper(self, sig, body):
+        """a plain top-level function, passed by name where a function value is expected"""
+        name = "hf%d" % len(self.helpers)
+        self.helpers.append("fn %s%s { %s }" % (name, sig, body))
+        return name
+
     # ---- instances --------------------------------------------------------------------------
     def instance(self, name, conc):
         key = (name, conc)
@@ -221,7 +234,7 @@ class Gen:
             cands = []
             for it in self.items.values():
                 s = match_ret(it.ret, t)
-                if s is not None and it.name not in ("grep", "gcount", "Box.tag", "gokr", "gerr", "gres"):
+                if s is not None and it.name not in ("grep", "gcount", "Box.tag", "gokr", "gerr", "gres", "gcallr", "grun2", "gapp"):
                     cands.append((it, s))
             if cands:
                 it, s = r.choice(cands)
@@ -285,6 +298,27 @@ class Gen:
                 g = gctx.call("gres", [ta, tb], [w])
                 m = mctx.call("gres", [ta, tb], [w])
                 self.used.update([which, "gres"])
+            elif k >= 0.64 and k < 0.76:
+                t = self.conc_type(1)
+                self.need_sh(t)
+                which = self.rng.choice(["gcallr", "grun2", "gapp"])
+                if which == "gcallr":
+                    f = self.helper("(i: int32) -> %s" % ty_text(t), self.value(t) if t != ("int32",) else "i * 2")
+                    n0 = str(self.rng.choice([0, 5]))
+                    g = gctx.call("gcallr", [t], [n0, f])
+                    m = mctx.call("gcallr", [t], [n0, f])
+                elif which == "grun2":
+                    f = self.helper("() -> %s" % ty_text(t), "let _ = string_println(\"run\"); %s" % self.value(t))
+                    g = "int32_to_string(%s)" % gctx.call("grun2", [t], [f])
+                    m = "int32_to_string(%s)" % mctx.call("grun2", [t], [f])
+                else:
+                    u = self.conc_type(1)
+                    self.need_sh(u)
+                    f = self.helper("(a: %s) -> %s" % (ty_text(t), ty_text(u)), self.value(u))
+                    x = self.value(t)
+                    g = "Sh::sh(%s)" % gctx.call("gapp", [t, u], [f, x])
+                    m = "Sh::sh(%s)" % mctx.call("gapp", [t, u], [f, x])
+                self.used.add(which)
             elif k < 0.42:
                 t = self.conc_type(1)
                 a = self.value(("Vec", t))
@@ -327,7 +361,7 @@ class Gen:
             elt = u[1]
             mkvecs.append("fn mkv_%s(a: %s, b: %s) -> Vec[%s] { let v: Vec[%s] = vec_new(); let v = vec_push(v, a); vec_push(v, b) }" % (mangle(elt), ty_text(elt), ty_text(elt), ty_text(elt), ty_text(elt)))
         impls = "".join(self.sh_impl(t) for t in self.sh_needed)
-        common = TYPES_PRELUDE + impls + "\n".join(mkvecs) + "\n"
+        common = TYPES_PRELUDE + impls + "\n".join(mkvecs + self.helpers) + "\n"
         P = common + "\n".join(gen_fns) + "\nfn main() {\n" + "\n".join(stmts_g) + "\n    ()\n}\n"
         Pm = common + "\n".join(mono_fns) + "\nfn main() {\n" + "\n".join(stmts_m) + "\n    ()\n}\n"
         info = {"instances": [(n, [ty_text(c) for c in cs]) for n, cs in self.order], "used_items": sorted(x for x in self.used if isinstance(x, str))}
